@@ -18,4 +18,38 @@ def coverPairs (B S N i : Int) : Nat :=
 def coverAxis (L B S : Int) : List Int :=
   (pyRange0 L).map fun i => ((coverPairs B S (Gen.a2bNumBlks L B S) i : Nat) : Int)
 
+/-! ### what a `_normal_linop` can return for the classes without an exact entry model, and the symbolic
+    operator chain of the Toeplitz NUFFT normal (filled in by `Gen/LinopNormal.lean`, regenerated from
+    sigpy/linop.py on every run; interpreted as matrices in Props/C04Toeplitz.lean) -/
+
+/-- Python `range(a, b, s)` for either sign of the step (`pyRange` covers positive steps only) -/
+def rangeStep (a b s : Int) : List Int :=
+  if s > 0 then pyRange a b s
+  else if s < 0 then (List.range ((a - b + (-s) - 1) / (-s)).toNat).map (fun (k : Nat) => a + (k : Int) * s)
+  else []
+
+/-- an operator object built inside `NUFFT._normal_linop` (constructor arguments in `__init__` order) -/
+inductive ChainOp where
+  | resize (oshape ishape : List Int) (ishift oshift : Option (List Int))
+  | fft (shape : List Int) (axes : Option (List Int)) (center : Bool)
+  /-- `Multiply(shape, psf)`: the multiplier is the psf array (of shape `mshape`) -/
+  | multiplyPsf (ishape mshape : List Int) (conj : Bool)
+deriving DecidableEq, Repr
+
+/-- a factor of a product `X * Y.H * ..` -/
+inductive ChainFactor where
+  | op (x : ChainOp)
+  | adj (x : ChainOp)
+deriving DecidableEq, Repr
+
+/-- the value of a `_normal_linop` of a class without an exact entry model -/
+inductive NormalOpaque where
+  /-- `self.H * self`: no override (`Linop._normal_linop`), or the same expression written out in the class -/
+  | default
+  /-- `return Identity(shape)` -/
+  | identity (shape : List Int)
+  /-- a product of operators built in the method -/
+  | chain (factors : List ChainFactor)
+deriving DecidableEq, Repr
+
 end SigpyVerif.C04
